@@ -127,3 +127,105 @@ def b_enumerate(seq, start=0):
     if start != 0:
         raise Unsupported('enumerate(start != 0) over a symbolic sequence')
     return SEnumerate(seq)
+
+
+class SearchLoop:
+    """Exact summarisation of a linear-search `for x in seq:` loop - no user invariant.
+
+    Side conditions (checked syntactically on the loop body, otherwise Unsupported):
+      * the body stores only into plain local names (no attribute / subscript stores, no calls, no nested loops)
+      * every read of a name assigned in the body is preceded, in the same iteration, by its assignment: neither the
+        exit conditions nor the assigned values depend on an earlier iteration
+    Under these conditions the loop is characterised by its exit index m (0 <= m <= n):
+      * no iteration t < m exits          - instantiated at the indices the contract supplies (`instances`) and at m - 1
+      * the locals after iteration m - 1 are those assigned by running the body on element m - 1 (if m > 0)
+      * if m < n iteration m exits (break / return), with the assignments it makes before exiting; if m == n the loop
+        is exhausted and the else-clause runs
+    All three are obtained by RUNNING the real body on the elements concerned; paths that contradict the definition of
+    m (an exit before m, no exit at m) are infeasible and dropped."""
+
+    def __init__(self, name, instances=None):
+        self.name = name
+        self.instances = instances or (lambda env: [])
+
+    @staticmethod
+    def check_shape(node):
+        assigned = assigned_names(node.body)
+
+        def scan(stmts, defined):
+            for st in stmts:
+                for n in ast.walk(st):
+                    if isinstance(n, (ast.Call, ast.For, ast.While, ast.Yield, ast.YieldFrom, ast.Await, ast.Lambda)):
+                        raise Unsupported(f'search loop body contains {n.__class__.__name__} (line {n.lineno})')
+                    if isinstance(n, (ast.Attribute, ast.Subscript)) and isinstance(n.ctx, (ast.Store, ast.Del)):
+                        raise Unsupported('search loop body stores into an attribute / subscript')
+                if isinstance(st, ast.If):
+                    reads = [n.id for n in ast.walk(st.test) if isinstance(n, ast.Name) and isinstance(n.ctx, ast.Load)]
+                    walrus = {n.target.id for n in ast.walk(st.test) if isinstance(n, ast.NamedExpr)}
+                    for r in reads:
+                        if r in assigned and r not in defined and r not in walrus:
+                            raise Unsupported(f'search loop: {r!r} is read before it is assigned in the iteration')
+                    d2 = set(defined) | walrus
+                    scan(st.body, set(d2))
+                    scan(st.orelse, set(d2))
+                    defined |= walrus
+                    # names assigned in both branches that fall through are defined afterwards; keep it simple: none
+                elif isinstance(st, (ast.Assign, ast.AnnAssign)):
+                    val = st.value
+                    for n in ast.walk(val) if val is not None else []:
+                        if isinstance(n, ast.Name) and isinstance(n.ctx, ast.Load) and n.id in assigned and n.id not in defined:
+                            raise Unsupported(f'search loop: {n.id!r} is read before it is assigned in the iteration')
+                    tg = st.targets if isinstance(st, ast.Assign) else [st.target]
+                    for t in tg:
+                        for n in ast.walk(t):
+                            if isinstance(n, ast.Name):
+                                defined.add(n.id)
+                elif isinstance(st, (ast.Break, ast.Return, ast.Pass, ast.Continue)):
+                    if isinstance(st, ast.Return) and st.value is not None:
+                        for n in ast.walk(st.value):
+                            if isinstance(n, ast.Name) and isinstance(n.ctx, ast.Load) and n.id in assigned and n.id not in defined:
+                                raise Unsupported(f'search loop: {n.id!r} is read before it is assigned in the iteration')
+                else:
+                    raise Unsupported(f'search loop body statement {st.__class__.__name__}')
+        tnames = {n.id for n in ast.walk(node.target) if isinstance(n, ast.Name)}
+        if not isinstance(node.target, (ast.Name, ast.Tuple)):
+            raise Unsupported('search loop target')
+        scan(node.body, set(tnames))
+
+    def run_for(self, interp, node, env, iterable):
+        from .interp import _Break, _Continue, _Return, Env
+        ctx = cur()
+        self.check_shape(node)
+        n = interp.globals['len'](iterable)
+        m = ctx.int(ctx.fresh_name(f'{self.name}.exit_index'))
+        ctx.assume(sym.and_(0 <= m, m <= n))
+
+        def run_body(k, e):
+            interp.assign(node.target, interp.getitem(iterable, k), e)
+            try:
+                interp.exec_block(node.body, e)
+            except _Continue:
+                pass
+
+        # (1) no exit before m, at the supplied instances
+        for t in list(self.instances(LoopSpec._envdict(self, env))):
+            if truth(sym.and_(0 <= t, t < m)):
+                scratch = Env(env)
+                try:
+                    run_body(t, scratch)
+                except (_Break, _Return):
+                    raise PathAbort()
+        # (2) locals as left by iteration m - 1
+        if truth(m > 0):
+            try:
+                run_body(m - 1, env)
+            except (_Break, _Return):
+                raise PathAbort()
+        # (3) exit at m, or exhaustion
+        if truth(m < n):
+            try:
+                run_body(m, env)
+            except _Break:
+                return
+            raise PathAbort()      # iteration m did not exit: contradicts the choice of m (a _Return propagates)
+        interp.exec_block(node.orelse, env)
